@@ -3,7 +3,7 @@ from ..facts import AnchorMissing, callee_def, op_place, op_const, is_bare, feas
 from ..util import (SUBR, TEXTR, RTRAIT, ends, is_callee, field_accesses, site, fn_key,
                     consumer_of_ref, callee_method, require, closure_bodies_created_in,
                     transitive_closures, edge_is_true, src_field, deep_atoms, has_call, has_field,
-                    find_dispatch)
+                    find_dispatch, direct_field, edges_where, unreachable_without_edges)
 from .. import drops
 from ..widths import norm as widths_norm
 
@@ -350,6 +350,26 @@ def rule_c(ctx):
     at = ttf.atoms(0)
     ctx.check(has_field(at, "WrappedBlock", "word") and has_call(at, "std::mem::take"), "C14-C",
               "take_trailing_fragments:takes-word", ttf.span, ttf.id, "")
+    # ... exactly when the *word* holds nothing but markers: the take is on the true edge of TaggedLine::is_empty(self.word)
+    # and depends on nothing else (the block's own is_empty() is false as soon as the current line has text, and a
+    # marker-only word is skipped by flush_word — the markers would be dropped with the block)
+    tks = ttf.calls(lambda cd, t: ends(cd, "std::mem::take"))
+    if tks:
+        def on_word(op):
+            f = direct_field(ttf, op)
+            return f is not None and ends(f[0], "WrappedBlock") and f[1] == "word"
+        cut = edges_where(ttf, lambda truth, src, a, s: truth is True and src and src[0] == "call" and
+                          ends(callee_def(src[1]) or "", "TaggedLine::<T>::is_empty") and on_word(src[1]["args"][0]))
+        others = []
+        for (a, s2) in ttf.cdeps_transitive(tks[0][0]):
+            if (a, s2) in cut:
+                continue
+            truth, src = edge_is_true(ttf, a, s2)
+            others.append(ttf.term(a)["span"])
+        ctx.check(bool(cut) and unreachable_without_edges(ttf, tks[0][0], cut) and not others, "C14-C",
+                  "take_trailing_fragments:iff-word-has-only-markers", tks[0][1]["span"], ttf.id,
+                  "the trailing markers must be taken exactly when TaggedLine::is_empty(&self.word) holds; another test "
+                  "(the block's is_empty(), a length) leaves markers behind that flush_word then skips")
     # add_line prepends pending fragments
     al = F.one("SubRenderer::<D>::add_line")
     takes = [(bb, t) for bb, t in al.calls(lambda cd, t: ends(cd, "std::mem::take"))
